@@ -153,12 +153,18 @@ func (c *client) AuthInfo() *control.AuthResponse {
 func (c *client) dial(ctx context.Context, dialer DialConnFunc) (err error) {
 	c.Lock()
 	defer c.Unlock()
-	if c.conn, err = dialer(ctx, c.Logger, c.addr, c.handshake, c.dialOptions); err == nil {
-		c.conn.OnPacket(c.onPacket)
-		c.conn.OnClose(c.onConnClose)
+	// keep the previous (closed) conn when the dial fails: storing the nil
+	// result made the next Do dereference a nil conn
+	conn, err := dialer(ctx, c.Logger, c.addr, c.handshake, c.dialOptions)
+	if err != nil {
+		return err
 	}
 
-	return
+	c.conn = conn
+	c.conn.OnPacket(c.onPacket)
+	c.conn.OnClose(c.onConnClose)
+
+	return nil
 }
 
 func (c *client) onConnClose(err error) {
